@@ -157,6 +157,9 @@ func cmdVC(args []string) {
 		if strings.HasPrefix(key, "(*") {
 			k = "(*" + repoPrefix + "/" + key[2:]
 		}
+		if strings.HasPrefix(strings.TrimLeft(key, "(*"), "github.com/") {
+			k = key // full import path given
+		}
 		ck := k
 		if i := strings.Index(key, "@"); i >= 0 {
 			ck = fullKey(key)
